@@ -17,14 +17,16 @@ def rel(a, b):
 def scene_case(spec):
     rng = np.random.default_rng([spec["seed"], spec["idx"]])
     out = {"evaluations": 1, "mismatches": [], "prop_failures": [], "dist": {}, "nontrivial": []}
-    nb = int(rng.integers(1, 4))
+    nb = int(rng.integers(1, 4)) if spec["idx"] % 2 == 0 else int(rng.integers(2, 4))
     cfg = S.draw_config(rng, nb=nb, multi_dir=False, max_patches=spec["max_patches"])
     cfg["att"] = np.round(rng.uniform(0.005, 0.3, nb), 4)
+    if nb > 1 and spec["idx"] % 2 == 1:
+        cfg["att"][int(rng.integers(0, nb))] = 0.0      # a lossless band next to lossy ones
     K = int(rng.integers(1, 3))
     radi = S.build(cfg)
     src = S.draw_inside(rng, cfg["dims"])
     recs = [S.draw_inside(rng, cfg["dims"])]
-    c, dt, dur = P.draw_timing(rng, cfg, K, "long", radi, src, recs)
+    c, dt, dur = P.draw_timing(rng, cfg, K, "coarse" if spec["idx"] % 4 == 3 else "long", radi, src, recs)
     tag = dict(dims=cfg["dims"], patch_size=cfg["patch_size"], n_patches=cfg["n_patches"], nb=nb,
                att=cfg["att"].tolist(), alpha=cfg["alpha"].tolist(), src=src.tolist(), rec=recs[0].tolist(),
                c=c, dt=dt, dur=dur, K=K, seed=spec["seed"], idx=spec["idx"])
